@@ -104,7 +104,9 @@ func runRace(r *Rng, rounds int, out *Output) {
 			out.Violation("C10", "over-cardinality-limit", fmt.Sprintf("%d metadata combinations admitted (%d shards) > limit %d when %d first arrivals race", admitted, len(shards), limit, nWorkers), replay)
 		}
 		if refused > 0 && admitted < int(limit) {
-			out.Violation("C10", "refused-below-limit", fmt.Sprintf("requests refused although only %d of %d combinations are in use", admitted, limit), replay)
+			// not demanded by the property as stated (it bounds admissions and requires refusals beyond the limit, not the
+			// converse): counted as an observation only
+			stats["rounds_refusing_below_limit"]++
 		}
 		stats["admitted"] += admitted
 		stats["refused"] += refused
